@@ -30,7 +30,7 @@ ASSUMPTIONS = [
     "comparison is semantic: values at n=0..N, types of source variables as sets, auxiliaries as a multiset without names, invariant "
     "bases as sorted expanded strings, refusals by exception type",
 ]
-TIMEOUT = {"quick": 150, "thorough": 400}
+TIMEOUT = {"quick": 110, "thorough": 600}
 DEADLINE = {"quick": 100, "thorough": 1700}
 MIN_DECIDING = {"quick": 8, "thorough": 120}
 NCASES = {"quick": 16, "thorough": 700}
@@ -157,7 +157,7 @@ def run_case(case, tier):
     A = case["target"]
     res = {"fingerprint": K.fingerprint(A["text"], A["goals"], [o["id"] for o in case["others"]]), "features": case["features"],
            "events": {}, "violations": [], "comparisons": 0, "refusals": [], "extra": {}}
-    per = 30 if tier == "quick" else 90
+    per = 25 if tier == "quick" else 90
     ref, err = run_jobs([A], 0, per)
     if ref is None:
         res.update(verdict="inconclusive", reason="reference-" + err.split(":")[0])
@@ -181,7 +181,7 @@ def run_case(case, tier):
         runs = [runs[0], runs[1], ("goal order " + str(case["perm"]) + " with PYTHONHASHSEED=1", [Ap], 1, -1), runs[4]]
     completed = 0
     for label, jobs, hs, idx in runs:
-        out, err = run_jobs(jobs, hs, per * len(jobs))
+        out, err = run_jobs(jobs, hs, min(per * len(jobs), 60 if tier == "quick" else 400))
         if out is None:
             res["extra"]["run-" + err.split(":")[0]] = res["extra"].get("run-" + err.split(":")[0], 0) + 1
             continue
